@@ -339,6 +339,8 @@ fn aggs_json(c: &str) -> Result<Option<Value>> {
     "range_empty" => json!({"a": {"type": "range", "field": "price", "keyed": true, "ranges": []}}),
     "date_histogram" => json!({"a": {"type": "date_histogram", "field": "year", "fixed_interval": "1d", "min_doc_count": 1}}),
     "date_histogram_bad_interval" => json!({"a": {"type": "date_histogram", "field": "year", "fixed_interval": "0d", "calendar_interval": "fortnight", "offset": "-x"}}),
+    "date_histogram_zero_interval" => json!({"a": {"type": "date_histogram", "field": "year", "fixed_interval": "0s",
+      "min_doc_count": 0, "extended_bounds": {"min": "0", "max": "1000"}}}),
     "date_range_bad_date" => json!({"a": {"type": "date_range", "field": "year", "keyed": false, "format": "%Q", "ranges": [{"from": "not a date", "to": "2020-13-45"}]}}),
     "percentiles_out_of_range" => json!({"a": {"type": "percentiles", "field": "price", "percents": [-5.0, 0.0, 150.0, 1e308], "missing": "x"}}),
     "percentile_ranks" => json!({"a": {"type": "percentile_ranks", "field": "price", "values": [-1e308, 0.0, 1e308]}}),
